@@ -431,8 +431,10 @@ def settings_words(h):
         return ','.join(l) if l else '-'
     j = h['jira'] or {}
     ao = ','.join('%s:%s' % (u, '+'.join(ks)) for u, ks in sorted(h['author_options'].items())) or '-'
+    # the command line of the robot: `no_octopus` is an option like the others (harness/system.py puts it there)
+    cmdline = list(h['options']) + (['no_octopus'] if h['no_octopus'] and 'no_octopus' not in h['options'] else [])
     return ' '.join([
-        lst(h['options']), ADMIN, ROBOT, ao, h['build_key'] or '-', str(h['peers']), str(h['leaders']),
+        lst(cmdline), ADMIN, ROBOT, ao, h['build_key'] or '-', str(h['peers']), str(h['leaders']),
         '1' if h['author_approval'] else '0', ADMIN,
         lst(j.get('jira_keys', [])), j.get('jira_email') or '-', j.get('jira_account_url') or '-',
         lst(sorted(j.get('prefixes', {}))), lst(j.get('bypass_prefixes', [])),
